@@ -2,6 +2,7 @@
 Props/C06.lean — each output element depends only on its own source, path index and observer.
 -/
 import MagpyVerif.Lemmas.TrimeshBatch
+import MagpyVerif.Lemmas.KernelLiterals
 import MagpyVerif.Lemmas.Polyline
 import MagpyVerif.Lemmas.TrimeshSum
 import MagpyVerif.Lemmas.Level2Shape
